@@ -323,8 +323,32 @@ impl Engine for Text {
                             }
                             // around a rounding tie
                             3..=6 => tie_literal(l, radix, pattern(l, ia), (sel & 7) as usize, &df, sel >> 4),
+                            // fraction of all top digits ("x.999..."): rounds up into the integer part
+                            7 => {
+                                let a = pattern(l, ia);
+                                let ip = match (sel >> 1) % 4 {
+                                    0 => l.val(l.raw_max()).shr_floor(l.f),               // maximum integer part
+                                    1 => l.val(a).abs().shr_floor(l.f),                   // from the operand classes
+                                    2 => l.val(a).abs().shr_floor(l.f).shl(1).add_i64(1), // odd
+                                    _ => Big::from_u64(((sel >> 40) % 9) as u64),
+                                };
+                                let n = 1 + (sel >> 8) as usize % 60;
+                                let top = std::char::from_digit(radix - 1, radix).unwrap();
+                                let mut fs: String = top.to_string().repeat(n);
+                                match (sel >> 16) % 4 {
+                                    0 => {}
+                                    1 => {
+                                        // last digit one lower
+                                        fs.pop();
+                                        fs.push(std::char::from_digit(radix - 2, radix).unwrap());
+                                    }
+                                    2 => fs.push_str(&digits_to_string(&df, radix, sel >> 40)),
+                                    _ => fs.push_str(&top.to_string().repeat(df.len())),
+                                }
+                                format!("{}{}.{}", if (sel >> 3) & 3 == 0 && l.signed { "-" } else { "" }, ip.to_digits(radix), fs)
+                            }
                             // malformed: one edit away from a valid literal
-                            7 | 8 => {
+                            8 => {
                                 let base = if sel & 1 == 0 {
                                     tie_literal(l, radix, pattern(l, ia), 0, &[], sel >> 4)
                                 } else {
